@@ -811,6 +811,12 @@ def _died(v):
 def _c19_property(r):
     d = _died(r["impl"])
     if not d:
+        # the copy chain (known finding D47): n copy operations between two lists, kept small enough to answer;
+        # the document they produce grows by the golden ratio per operation
+        c = r["case"]
+        if r["kind"] == "compose" and c.get("label") == "copy-chain" and isinstance(r["impl"], dict) and r["impl"].get("class") == "ok":
+            if len(json.dumps(r["impl"].get("doc"))) >= 1.5 ** c["copies"]:
+                return "compose/copy-chain/document-grows-exponentially"
         return None
     why = ""
     if isinstance(r["model"], dict) and _died(r["model"]) == "killed":
@@ -846,9 +852,12 @@ PROPS["C19"] = {
     "level_text": "Every entry point of the model is a total Lean function (structural recursion or explicit fuel; accepted by Lean's termination checker) whose result type makes the "
                   "library's hazards explicit (R.panic: a Go panic inside the patch library, recovered by the composer; R.blowup: an unrecoverable death). Proved in Lean: the patch "
                   "library's copy makes a document contain itself exactly when the walk to the target passes through the source node (copyMakesCycle), and whenever it does the "
-                  "composer's guard holds (guard_excludes_cycle: pointers compared the way the library resolves them - ignoring what precedes the first '/', unescaping, and reading "
-                  "indices with Atoi - for every document and pointer pair); behind the guard the only way one library call, and hence a whole ietf-json-patch, can be fatal is an "
-                  "array index at or beyond blowupIndex as the last token of a target (applyGuarded_blowup, applyAll_blowup) - the recorded finding. The correspondence on hostile "
+                  "composer's guard holds (guard_excludes_cycle: the guard walks the document along 'from', comparing the two pointers the way the container at hand resolves them - "
+                  "ignoring what precedes the first '/', unescaping, exact names in an object, indices read with Atoi in a list - for every document and pointer pair), and it "
+                  "refuses nothing else (guard_refuses_only_children: when the guard holds and 'from' resolves, the first tokens of 'path' resolve to the very same nodes); behind the guard the only way one library call, and hence a whole ietf-json-patch, can be fatal is an "
+                  "array index at or beyond blowupIndex as the last token of a target (applyGuarded_blowup, applyAll_blowup) - the recorded finding. Memory is not modelled: the second "
+                  "recorded finding (a chain of copies grows the document by the golden ratio per operation) is exhibited by a kernel-evaluated witness on fourteen chain lengths, a "
+                  "test of the model, not a theorem. The correspondence on hostile "
                   "streams ties the Go code to these total functions: a panic or death where the model answers is a violation.",
     "level_note": "partial: absence of panics in the Go code is established by correspondence with a total model on hostile streams, not by a theorem about Go; memory safety and stack depth "
                   "of the Go runtime are outside any Lean model. Trusted: Lean kernel; extractor; harness crash attribution.",
